@@ -3,3 +3,4 @@ import BromeliaVerif.Properties.C17
 import BromeliaVerif.Properties.C18
 import BromeliaVerif.Properties.C20
 import BromeliaVerif.Properties.C01
+import BromeliaVerif.Properties.C02
